@@ -16,7 +16,7 @@ from lib.progs import V, A, F
 
 ID = 'C20'
 THEOREMS = ['C20_sem_extensional_body', 'C20_sem_extensional_code', 'C20_sem_extensional_program', 'C20_yield_value_irrelevant_leaf',
-            'C20_yield_value_irrelevant', 'C20_native_equals_compiled_facts', 'C20_facts_compile', 'C20_subset_interchangeable', 'C20_program_with_python_predicates', 'C20_program_with_python_predicates_all_styles', 'C20_python_predicates_compute_clause_semantics', 'C20_dynamic_facts_first',
+            'C20_yield_value_irrelevant', 'C20_native_equals_compiled_facts', 'C20_facts_compile', 'C20_subset_interchangeable', 'C20_program_with_python_predicates', 'C20_program_with_python_predicates_all_styles', 'C20_python_predicates_compute_clause_semantics', 'C20_dynamic_facts_first', 'C20_python_predicate_equals_dynamic_facts',
             'C20_args_in_call_order', 'C20_args_in_call_order_variadic', 'C20_exception_at_the_predicate', 'C20_exception_passthrough',
             'C20_exception_passthrough_variadic', 'C20_engine_with_exceptions_refines', 'C20_exception_provenance',
             'C20_exception_unchanged', 'C20_plain_is_machine']
